@@ -247,7 +247,9 @@ func c17Real(c *Ctx) {
 			c.Diag("readdir: %v", err)
 		}
 		// Chtimes through the client, to times before and beyond 2038: the file system must show exactly those seconds
-		for ti, tm := range [][2]int64{{1700000000, 1600000000}, {2400000000, 2500000000}, {4000000000, 2147483648}} {
+		// (and to the epoch itself, second 0, one of the two or both: a value like any other, not "no time given")
+		for ti, tm := range [][2]int64{{1700000000, 1600000000}, {2400000000, 2500000000}, {4000000000, 2147483648},
+			{0, 1600000001}, {1700000001, 0}, {1700000002, 1600000002}, {0, 0}, {1, 1}} {
 			cerr := p.Client.Chtimes(filepath.Join(base, "settime"), time.Unix(tm[0], 0), time.Unix(tm[1], 0))
 			got, _ := lsnap(filepath.Join(dir, "settime"))
 			n := c.Case("real_chtimes", kvi("t", ti), kvb("workdir", cfg.workDir != ""), kvb("alloc", cfg.alloc))
